@@ -217,3 +217,74 @@ func checkRetryCounterReset(p *Prog, r *Result, pkg *packages.Package, rule stri
 	}
 	return n
 }
+
+// checkEOFCursor: positions are offs + bsp - w, and at the end of the input w is 1 with nothing consumed, so rune()
+// moves the cursor one past the buffer when it answers the end-of-input sentinel. Whether the buffer is empty at that
+// point depends on how the reader delivered its last bytes (alone, then io.EOF — or together with io.EOF, in which case
+// fill() has nothing more to do and leaves them in place). The store must therefore not depend on the buffer being
+// empty: in rune(), every store of the sentinel into p.r is preceded in its block by an unconditional
+// `p.bsp = len(p.bs) + 1`.
+func checkEOFCursor(p *Prog, r *Result, pkg *packages.Package, rule string) {
+	info := pkg.TypesInfo
+	fd := p.FuncDecl("syntax", "Parser.rune")
+	eofC, _ := pkg.Types.Scope().Lookup("runeEOF").(*types.Const)
+	if fd == nil || eofC == nil {
+		r.Fatalf("anchors Parser.rune / runeEOF not found")
+		return
+	}
+	g := NewFGraph(info, fd.Body, nil)
+	n := 0
+	for _, b := range g.Blocks {
+		for i, nd := range b.Nodes {
+			as, ok := nd.(*ast.AssignStmt)
+			if !ok || len(as.Lhs) != len(as.Rhs) {
+				continue
+			}
+			isEOFStore := false
+			for j, l := range as.Lhs {
+				if fv := selectorField(info, l); fv != nil && fv.Name() == "r" {
+					if tv, ok := info.Types[as.Rhs[j]]; ok && tv.Value != nil && types.Identical(tv.Type, eofC.Type()) && tv.Value.ExactString() == eofC.Val().ExactString() {
+						isEOFStore = true
+					}
+				}
+			}
+			if !isEOFStore {
+				continue
+			}
+			n++
+			key := "syntax.(Parser).rune#the end-of-input cursor does not depend on the buffer being empty"
+			if n > 1 {
+				key = fmt.Sprintf("%s (%d)", key, n)
+			}
+			ok2 := false
+			for _, prev := range b.Nodes[:i] {
+				pa, isAs := prev.(*ast.AssignStmt)
+				if !isAs || len(pa.Lhs) != 1 || len(pa.Rhs) != 1 {
+					continue
+				}
+				if fv := selectorField(info, pa.Lhs[0]); fv == nil || fv.Name() != "bsp" {
+					continue
+				}
+				be, isBin := stripConv(info, pa.Rhs[0]).(*ast.BinaryExpr)
+				if !isBin || be.Op != token.ADD {
+					continue
+				}
+				c, isCall := stripConv(info, be.X).(*ast.CallExpr)
+				if !isCall || !isBuiltinCall(info, c, "len") || len(c.Args) != 1 {
+					continue
+				}
+				if bf := selectorField(info, c.Args[0]); bf == nil || bf.Name() != "bs" {
+					continue
+				}
+				if tv, has := info.Types[be.Y]; has && tv.Value != nil && tv.Value.ExactString() == "1" {
+					ok2 = true
+				}
+			}
+			r.Check(ok2, rule, key, as.Pos(), "the block that stores the sentinel first stores p.bsp = len(p.bs) + 1, unconditionally",
+				"rune() answers the end-of-input sentinel without moving the cursor one past the buffer in the same block (unconditionally): when the reader delivers its last bytes together with io.EOF the buffer is not empty at that point, and the end offsets of the last token and of the file come out one byte short")
+		}
+	}
+	if n == 0 {
+		r.Bad(rule, "syntax.(Parser).rune#stores the sentinel", fd.Pos(), "rune() never stores the end-of-input sentinel: the rule no longer sees the construct it is about")
+	}
+}
